@@ -6,6 +6,9 @@
                                                 => Ok len= tc= id= cnt=q,a,n,r opt= b2=
    srv <id> <b2> <qd> <nq> <labels> <qtype> <-|one:size:ver|dup:size|bad> <cfg|-> <none|err:rc|ok:rb2:rb3:n_an:an_len:n_ar:ar_len:(-|size/dlen)>
                                                 => Ok None | Ok len= tc= id= cnt= opt= b2= b3= ottl=   (one datagram through the whole DgramServer)
+   idle <timeout_ms> <wait_ms>                  => open | closed   (a fresh connection left alone for wait_ms, then probed)
+   limit <max> <k>                              => s/d per connection (k connections opened in turn and kept: served or dropped)
+   ck <id> <b2> <labels> <qtype> <client|-> <cfg|-> <mal|deny>   => as srv: the cookies middleware's own FORMERR (malformed COOKIE) / REFUSED+TC (denied address, no cookie)
    pad <hexdatagram> <cfg|->                    => as srv: a raw datagram (no records, no compression) as the 1024-octet zero-padded receive buffer presents it
    tcp <id> <b2> <qd> <nq> <labels> <qtype> <-|one:size:ver|ka:size:0/1|dup:size|bad> <idle_ms|-> <svc as srv>
                                                 => Ok None | Ok len= ... ottl= odl=   (one request on a StreamServer connection, the response before framing)
@@ -48,6 +51,15 @@ let handle = function
       show_outcome (fun (((((l, tc), i), (((q, a), n), r)), ho), b2) ->
         Printf.sprintf "len=%s tc=%s id=%s cnt=%s,%s,%s,%s opt=%s b2=%s" (show_n l) (b01 tc) (show_n i)
           (show_n q) (show_n a) (show_n n) (show_n r) (b01 ho) (show_n b2)) r
+  | ["idle"; t; w] -> if c16_idle (n_of t) (n_of w) then "open" else "closed"
+  | ["limit"; mx; k] -> String.concat "" (List.map (fun b -> if b then "s" else "d") (c16_limit (n_of mx) (n_of k)))
+  | ["ck"; id; b2; labels; qtype; client; cfg; kind] ->
+      show_outcome (function
+        | None -> "None"
+        | Some (((((((l, tc), i), (((q, a), n), r)), ho), b2), b3), ottl) ->
+            Printf.sprintf "len=%s tc=%s id=%s cnt=%s,%s,%s,%s opt=%s b2=%s b3=%s ottl=%s" (show_n l) (b01 tc) (show_n i)
+              (show_n q) (show_n a) (show_n n) (show_n r) (b01 ho) (show_n b2) (show_n b3) (show_n ottl))
+        (c16_ck (n_of id) (n_of b2) (List.map n_of (split_on '.' labels)) (n_of qtype) (opt_n client) (opt_n cfg) (kind = "deny"))
   | ["pad"; d; cfg] ->
       show_outcome (function
         | None -> "None"
